@@ -334,6 +334,7 @@ class Interp:
         self.call_contracts = {}    # qualname -> callable(interp, func, args, kwargs)
         self.builtins = {}
         self.depth = 0
+        self.ghost = {}
         self.map_mode = []          # stack of map-body frames
         self.cy_flags_default = {"boundscheck": True, "wraparound": True,
                                  "cdivision": False, "cpow": False}
@@ -1839,6 +1840,16 @@ class Interp:
                 raise Unsupported("address of non-name")
             e = env.find(tgt.id) or env
             return Cell(e, tgt.id)
+        if isinstance(n.func, ast.Name) and n.func.id == "super" and not n.args:
+            e = env
+            while e is not None and e.func is None:
+                e = e.parent
+            if e is None or e.func.cls is None:
+                raise Unsupported("super() outside a method")
+            a0 = e.func.node.args
+            first = (a0.posonlyargs + a0.args)[0].arg
+            fe = env.find(first)
+            return SuperProxy(e.func.cls, fe.vars[first])
         f = self.eval(n.func, env)
         args = []
         for a in n.args:
@@ -1930,6 +1941,12 @@ class Interp:
 
 class AutoVal:
     pass
+
+
+class SuperProxy:
+    def __init__(self, cls, obj):
+        self.cls = cls
+        self.obj = obj
 
 
 class OpaqueStr:
